@@ -292,6 +292,9 @@ func (p *Path) callValue(fnv Value, args []Value, caller *frame, site ssa.CallIn
 		p.gopanic("runtime error: invalid memory address or nil pointer dereference (nil func call)")
 	}
 	fn := f.Fn
+	if p.H.ufSet != nil && p.H.ufSet[fn.String()] {
+		return p.callUF(fn, args)
+	}
 	if h := p.E.intrinsic(fn); h != nil {
 		return h(p, caller, fn, args, site)
 	}
